@@ -294,7 +294,7 @@ func propC17(a *Analysis, r *Registry) {
 				want := e.MustParse(spec)
 				for _, as := range regimes {
 					g, w := X.SimplifyUnder(got, as), X.SimplifyUnder(want, as)
-					if !(g.Equal(w) || S.BoolEquiv(g, w) || X.EquivByCases(g, w, 0)) {
+					if !(g.Equal(w) || S.BoolEquiv(g, w) || X.EquivByCases(g, w, 0) || X.EquivByCasesUnder(g, w, as)) {
 						r.Fail(rule, construct, where, "code computes "+clip(g.String(), 400)+" ; the stated formula is "+spec+" = "+clip(w.String(), 400))
 						return
 					}
@@ -318,6 +318,18 @@ func propC17(a *Analysis, r *Registry) {
 				return
 			}
 			eqR("D-bound clamp", name+"/guess-clamped", a.W.InstrPos(first), fc.Val(first.Call.Args[0]), env, "l0")
+			// the clamped guess, however the code writes the clamp, is l0 from here on (decided just
+			// above, per regime): the later comparisons see the stated form
+			clampSub := map[AtomID]*RF{}
+			if ca := fc.Val(first.Call.Args[0]).SingleAtom(); ca != nil && ca.Name == "ite" {
+				clampSub[ca.ID] = env.Vars["l0"].RF
+			}
+			canon := func(v *RF) *RF {
+				if len(clampSub) == 0 {
+					return v
+				}
+				return v.Subst(clampSub)
+			}
 			// the two searches
 			for _, c := range calls {
 				if c == first {
@@ -325,6 +337,7 @@ func propC17(a *Analysis, r *Registry) {
 				}
 				l := fc.Val(c.Call.Args[0])
 				li, ln := fc.Recurrence(l)
+				li = canon(li)
 				e := X.EnvFor(fn, "o", "ticker", "guess")
 				for _, nm := range []string{"dflt", "minL", "maxL", "l0"} {
 					e.Vars[nm] = env.Vars[nm]
@@ -363,16 +376,27 @@ func propC17(a *Analysis, r *Registry) {
 			// (0,false) early or when the upward search passes maxL; else l+1 after the
 			// downward search, l after the upward search
 			b.guard(rB, name+"/result", func() {
-				rv0, rv1 := fc.RetVal(0), fc.RetVal(1)
+				rv0, rv1 := canon(fc.RetVal(0)), canon(fc.RetVal(1))
 				// the level "reached" by each search is its loop counter, or — when the loop looks one
 				// level ahead or advances before testing — that counter offset by one
-				var phs []*RF
-				for _, ph := range fc.loopPhis(rv0) {
-					phs = append(phs, ph, ph.Sub(S.Int(1)), ph.Add(S.Int(1)))
+				base := fc.loopPhis(rv0)
+				type cand struct{ d, u *RF }
+				var cands []cand
+				// the plain form first, then look-ahead down / advance-first up, then the rest
+				for _, sh := range [][2]int64{{0, 0}, {-1, 1}, {0, 1}, {-1, 0}, {1, 0}, {0, -1}, {1, 1}, {-1, -1}, {1, -1}} {
+					for _, pd := range base {
+						for _, pu := range base {
+							if pd.Equal(pu) {
+								continue
+							}
+							cands = append(cands, cand{pd.Add(S.Int(sh[0])), pu.Add(S.Int(sh[1]))})
+						}
+					}
 				}
 				okForm := false
-				for _, d := range phs {
-					for _, u := range phs {
+				for _, cd := range cands {
+					d, u := cd.d, cd.u
+					{
 						if okForm {
 							break
 						}
@@ -397,8 +421,8 @@ func propC17(a *Analysis, r *Registry) {
 						for _, as := range all {
 							g0, g1 := X.SimplifyUnder(rv0, as), X.SimplifyUnder(rv1, as)
 							x0, x1 := X.SimplifyUnder(w0, as), X.SimplifyUnder(w1, as)
-							ok0 := g0.Equal(x0) || X.EquivByCases(g0, x0, 0)
-							ok1 := g1.Equal(x1) || X.EquivByCases(g1, x1, 0)
+							ok0 := g0.Equal(x0) || X.EquivByCases(g0, x0, 0) || X.EquivByCasesUnder(g0, x0, as)
+							ok1 := g1.Equal(x1) || X.EquivByCases(g1, x1, 0) || X.EquivByCasesUnder(g1, x1, as)
 							if os.Getenv("GMSA_DEBUG_C17") != "" {
 								fmt.Fprintf(os.Stderr, "C17 result d=%s u=%s regime ok0=%v ok1=%v\n  g0=%s\n  x0=%s\n  g1=%s\n  x1=%s\n", d, u, ok0, ok1, clip(g0.String(), 900), clip(x0.String(), 900), clip(g1.String(), 900), clip(x1.String(), 900))
 							}
